@@ -607,7 +607,7 @@ func C10(tier string) *core.Report {
 	r.Set("bounds", map[string]any{"string_len": strLen, "string_alphabet_bytes": fmt.Sprintf("% X", alpha10), "int_n": "-3..8",
 		"slice_len": sliceLen, "slice_script_len": scriptLen, "slice_script_ops": "none, write ahead, write behind, append, reslice to half, set nil",
 		"map_keys": "subsets of {a,b,c,nil} with values in {1,nil}; map[any]any, map[string]any, map[string]int; deletion scripts",
-		"chan": "contents over {0,1,2} up to length 3; buffered+closed, unbuffered producer"})
+		"chan":     "contents over {0,1,2} up to length 3; buffered+closed, unbuffered producer"})
 	r.Set("rule", "every input of the bounded space; a state is one (input, mutation script); the oracle is the native range statement over the same value in the same process (multisets and the spec's deletion rules for maps)")
 	r.Assume("map iteration order is unspecified: maps are compared as multisets; deletion scripts are chosen relative to what has been produced so that the spec determines the outcome")
 	r.Assume("integer reference is the three-clause loop 0..n-1 (the spec's definition of range n); the harness module is go 1.21")
